@@ -225,9 +225,77 @@ def c02(ctx):
     return s7_prop(ctx, 'C02')
 
 
+def s1_compare(case):
+    m1 = next((l for l in case.mlines if l.startswith('m1 ')), None)
+    order = s1_order(case)
+    if m1 is None:
+        return 'skip', ''
+    mt = m1.split()
+    if mt[1] == 'ok':
+        want = [] if mt[2] == '-' else [int(x) for x in mt[2].split(',')]
+        if order is None:
+            return ('skip', '') if case.bind.split()[1] != 'ok' and 'E_EDIT' not in case.bind else ('diff', 'impl gave no S1 order')
+        return ('same', '') if order == want else ('diff', 'S1 order impl %s model %s' % (order, want))
+    if order is not None:
+        return 'diff', 'model error %s but impl edited the list' % mt[2]
+    return 'same', ''
+
+
+def exec_order_ok(case):
+    """the run-phase providers of every traversal appear in S1 (listed, adjusted) order"""
+    order = s1_order(case)
+    if not order or any('reorder' in p['ann'].split(',') for p in case.provs):
+        return True, ''
+    rank = {str(i): k for k, i in enumerate(order)}
+    statics = {f['id'] for f in case.s7_funcs() if f['group'] in ('static', 'literal')}
+    stack = []   # open wrappers
+    last = -1
+    for l in case.t:
+        tk = l.split()
+        if tk[0] == 'ret':
+            stack = []; last = -1; continue
+        if tk[0] in ('call', 'wenter'):
+            if tk[1] in statics or tk[1] not in rank:
+                continue
+            r = rank[tk[1]]
+            if r <= last:
+                return False, 'provider %s ran after a provider listed later (rank %d after %d)' % (tk[1], r, last)
+            last = r
+            if tk[0] == 'wenter':
+                stack.append(r)
+        elif tk[0] == 'winner':
+            # a new traversal of everything below this wrapper
+            last = rank.get(tk[1], last)
+        elif tk[0] == 'wret':
+            if stack:
+                stack.pop()
+    return True, ''
+
+
 @prop('C05')
 def c05(ctx):
-    return s7_prop(ctx, 'C05')
+    ob, dis, details = proof_obligations(ctx, 'C05')
+    cases = load_cases(ctx)
+    if cases is not None:
+        s7_check(ctx, 'C05', cases)
+        stage_stats(ctx, cases, s1_compare, 'S1', found=True)
+        for c in cases:
+            if c.ok:
+                ok, d = exec_order_ok(c)
+                if not ok:
+                    ctx.violations.append(('%s (case %s)' % (d, c.key), write_replay(ctx, 'case_%s.txt' % c.key, c.text()), True))
+    ecases = load_cases(ctx, 'edit', 1500 if ctx.tier == 'quick' else 15000)
+    if ecases is not None:
+        stage_stats(ctx, ecases, s1_compare, 'S1edit', found=True)
+        for c in ecases:
+            if c.ok:
+                ok, d = exec_order_ok(c)
+                if not ok:
+                    ctx.violations.append(('%s (case %s)' % (d, c.key), write_replay(ctx, 'case_%s.txt' % c.key, c.text()), True))
+    if len(ctx.violations) > 5:
+        ctx.notes.append('%d violations; first 5 reported' % len(ctx.violations)); ctx.violations.sort(key=lambda v: not v[2]); ctx.violations = ctx.violations[:5]
+    ctx.assumptions += ['provider bodies are the harness\'s scripted bodies (any Beh in the theorem)']
+    return finish(ctx, 'proof', ob, dis, details, S7_RULE + '; plus the S1 order (named edits, NonFinal) against the model and execution order against the S1 order')
 
 
 @prop('C07')
@@ -381,14 +449,14 @@ def s3_compare(case):
 
 # ---------------------------------------------------------------- C06 static vs per-invocation
 
-def stage_stats(ctx, cases, cmpfn, label, attribute=True):
+def stage_stats(ctx, cases, cmpfn, label, found=False):
     st = collections.Counter()
     for c in cases:
         s, d = cmpfn(c)
         st[s] += 1
         if s == 'diff':
             ctx.violations.append(('%s correspondence: %s (case %s)' % (label, d, c.key),
-                                   write_replay(ctx, 'case_%s.txt' % c.key, c.text()), False))
+                                   write_replay(ctx, 'case_%s.txt' % c.key, c.text()), found))
     ctx.cov[label + '_compared'] = st['same'] + st['diff']
     ctx.cov[label + '_diff'] = st['diff']
     return st
@@ -418,6 +486,40 @@ def call_counts_ok(case):
     return True, ''
 
 
+def c06_direct(case):
+    """the property read directly off the implementation's dump and the provider descriptions"""
+    out = []
+    provs = {str(p['idx']): p for p in case.provs}
+    fs = dump_funcs(case, 'S3')[1] or []
+    inv = next((f for f in fs if f['class'] == 'invoke-func'), None)
+    tainted = set(ints(inv['out'])) if inv else set()
+    # taint in list order of the S3 stage (= edited order): use the S3 dump, whose order is pre-reorder
+    hdr, s3 = dump_funcs(case, 'S3')
+    order = [f for f in (s3 or []) if f['id'] in provs]
+    # S3 lists static/literal before run; recover listed order by provider idx after edits = S1 order
+    s1 = s1_order(case) or []
+    byid = {f['id']: f for f in (s3 or [])}
+    for i in s1:
+        f = byid.get(str(i))
+        if f is None:
+            continue
+        p = provs[str(i)]
+        ann = p['ann'].split(',')
+        if f['group'] == 'static':
+            if 'notcacheable' in ann:
+                out.append('provider %s is NotCacheable but classified STATIC' % i)
+            if not ({'cacheable', 'mustcache', 'memoize', 'singleton'} & set(ann)):
+                out.append('provider %s is not marked Cacheable/MustCache/Memoize/Singleton but classified STATIC' % i)
+            bad = [t for t in ints(f['in']) if t in tainted]
+            if bad:
+                out.append('provider %s is STATIC but its input %s comes from invoke or an earlier per-invocation provider' % (i, bad))
+        if f['group'] == 'run':
+            if {'mustcache', 'singleton'} & set(ann):
+                out.append('provider %s is MustCache/Singleton but classified RUN and Bind succeeded' % i)
+            tainted |= set(ints(f['out']))
+    return out
+
+
 @prop('C06')
 def c06(ctx):
     ob, dis, details = proof_obligations(ctx, 'C06')
@@ -426,6 +528,8 @@ def c06(ctx):
         stage_stats(ctx, cases, s3_compare, 'S3')
         n = 0; distinct = set(); feats = collections.Counter()
         for c in cases:
+            for d in c06_direct(c):
+                ctx.violations.append(('%s (case %s)' % (d, c.key), write_replay(ctx, 'case_%s.txt' % c.key, c.text()), True))
             if not c.ok or c.skip:
                 continue
             n += 1
@@ -454,10 +558,75 @@ def c06(ctx):
         ctx.cov['distinct_nontrivial'] = len(distinct)
         ctx.cov['generator_distribution'] = dict(feats)
         if len(ctx.violations) > 5:
-            ctx.notes.append('%d violations; first 5 reported' % len(ctx.violations)); ctx.violations = ctx.violations[:5]
+            ctx.notes.append('%d violations; first 5 reported' % len(ctx.violations)); ctx.violations.sort(key=lambda v: not v[2]); ctx.violations = ctx.violations[:5]
     rule = ('registry theorems are re-proved over the table regenerated from characterize.go on this run; the list-level model '
             'characterizeAll/assemble is compared with the implementation\'s S3 dump (class, group, five flow lists, order, invokeIndex) '
             'on every generated chain; call counts of static injectors over init + several invocations are read from the real traces; '
             'non-trivial = chain with a Cacheable-family provider; distinct = distinct provider lists')
     ctx.assumptions.append('with an init function the static chain runs when init is called (documented contract)')
     return finish(ctx, 'proof', ob, dis, details, rule)
+
+
+def s5_compare(case):
+    m5 = next((l for l in case.mlines if l.startswith('m5 ')), None)
+    if m5 is None:
+        return 'skip', 'no model record'
+    mt = m5.split()
+    hdr, fs = dump_funcs(case, 'S7')
+    bind = case.bind.split()
+    if any(p for p in case.provs if 'reorder' in p['ann'].split(',')):
+        return 'skip', 'reorder'
+    if mt[1] == 'err':
+        if fs is None and len(bind) > 2 and bind[1] == 'err' and bind[2] == mt[2]:
+            return 'same', ''
+        return 'diff', 'model %s, impl %s' % (mt[2], ' '.join(bind[:3]))
+    if fs is None:
+        return 'diff', 'model binds, impl %s' % ' '.join(bind[:3])
+    want = {}
+    for tok in mt[2:]:
+        i, inc, drm, urm, brm, wanted = tok.split(':')
+        want[i] = (inc, drm, urm, brm, wanted)
+    if [f['id'] for f in fs] != [tok.split(':')[0] for tok in mt[2:]]:
+        return 'diff', 'order differs'
+    for f in fs:
+        w = want[f['id']]
+        if f['inc'] != w[0]:
+            return 'diff', 'include flag of %s: impl %s model %s' % (f['id'], f['inc'], w[0])
+        if f['inc'] == '1' and (f['drm'], f['urm'], f['brm']) != (w[1], w[2], w[3]):
+            return 'diff', 'rmaps of %s: impl %s model %s' % (f['id'], (f['drm'], f['urm'], f['brm']), w[1:4])
+    return 'same', ''
+
+
+def s6_compare(case):
+    m6 = next((l for l in case.mlines if l.startswith('m6 ')), None)
+    hdr, fs = dump_funcs(case, 'S7')
+    if m6 is None or fs is None:
+        return 'skip', ''
+    if any(p for p in case.provs if 'reorder' in p['ann'].split(',')):
+        return 'skip', 'reorder'
+    mt = m6.split()
+    d = kv(m6)
+    dv = next((l for l in case.lines if l.startswith('dv ')), 'dv -').split()[1]
+    uv = next((l for l in case.lines if l.startswith('uv ')), 'uv -').split()[1]
+    def mapped(s):
+        return sorted(int(x.split(':')[0]) for x in s.split(',') if x != '-' and not x.endswith(':-1'))
+    if mapped(dv) != ints(d['d']):
+        return 'diff', 'down-mapped types impl %s model %s' % (mapped(dv), d['d'])
+    if mapped(uv) != ints(d['u']):
+        return 'diff', 'up-mapped types impl %s model %s' % (mapped(uv), d['u'])
+    if hdr['vcount'] != d['vcount']:
+        return 'diff', 'vcount impl %s model %s' % (hdr['vcount'], d['vcount'])
+    zi = mt.index('z')
+    want = {t.split(':')[0]: t.split(':')[1:] for t in mt[zi + 1:]}
+    for f in fs:
+        if f['inc'] != '1' or f['id'] not in want:
+            continue
+        zs = f['zs']; zin = f['zi']
+        pos = int(fs.index(f))
+        if pos < int(hdr['invokeIndex']):
+            if f['class'] == 'fallible-static-injector' and zs != want[f['id']][0]:
+                return 'diff', 'zero-if-skipped of %s impl %s model %s' % (f['id'], zs, want[f['id']][0])
+        else:
+            if f['class'] in ('wrapper-func', 'fallible-injector') and zin != want[f['id']][1]:
+                return 'diff', 'zero-if-inner-not-called of %s impl %s model %s' % (f['id'], zin, want[f['id']][1])
+    return 'same', ''
